@@ -706,8 +706,9 @@ fn gen_instance(rng: &mut Rng, max_breaks: usize) -> Value {
     let es = if rng.chance(1, 6) { rng.range(1, 5) * u } else { 0 };
     let fin = rng.chance(1, 5);
     let lp = *rng.pick(&[10i64, 10, 10, 10, 0, 100, -10, 1, 5000, 12000, 200]);
-    let hp = *rng.pick(&[50i64, 50, 50, 0, -50, 500, 10000, -10000, 9999, 1000]);
-    let ehp = *rng.pick(&[50i64, 50, 0, -50, 500, 10000, -10000, 30]);
+    // the parameters are free integers: beyond +-10000 they mean "never" / "forced" like the limit itself (TeX 831)
+    let hp = *rng.pick(&[50i64, 50, 50, 0, -50, 500, 10000, -10000, 9999, 1000, -10001, -20000, 10001, 30000, -9999]);
+    let ehp = *rng.pick(&[50i64, 50, 0, -50, 500, 10000, -10000, 30, -10001, -15000, 10001, 25000, -9999]);
     let dhd = *rng.pick(&[10000i64, 10000, 0, -10000, 100000, 1000000, 5]);
     let fhd = *rng.pick(&[5000i64, 5000, 0, -5000, 100000, 1000000, 7]);
     let adj = *rng.pick(&[10000i64, 10000, 10000, 0, -10000, 5, 100000, 50, 1000, 1000000]);
